@@ -49,30 +49,64 @@ def apply_patch(tree, patch_text: str) -> dict | None:
         pos = 0
         no_nl_end = False
         for h in f["hunks"]:
-            start = max(h["start"] - 1, 0)
-            if start < pos:
+            body = [(tag, text) for (tag, text) in h["lines"] if tag != "\\"]
+            if any(tag == "\\" for (tag, _t) in h["lines"]):
+                no_nl_end = True
+            oldblk = [text for (tag, text) in body if tag in (" ", "-")]
+            want = max(h["start"] - 1, 0) if oldblk else max(h["start"], 0)
+            # like patch(1): the hunk is looked for at its recorded place, then at growing offsets, then with up to two
+            # leading / trailing context lines ignored (the tree may have moved on by a few lines since the patch was made)
+            lead = 0
+            while lead < len(body) and body[lead][0] == " ":
+                lead += 1
+            trail = 0
+            while trail < len(body) - lead and body[len(body) - 1 - trail][0] == " ":
+                trail += 1
+            found = None
+            for fuzz in range(0, 3):
+                for fh in range(0, min(fuzz, lead) + 1):
+                    ft = min(fuzz - fh, trail)
+                    blk = oldblk[fh:len(oldblk) - ft] if ft else oldblk[fh:]
+                    if not blk and oldblk:
+                        continue
+                    cands = sorted(range(pos, len(src) - len(blk) + 1), key=lambda q: abs(q - (want + fh)))
+                    for q in cands:
+                        if abs(q - (want + fh)) > 400:
+                            break
+                        if src[q:q + len(blk)] == blk:
+                            found = (q - fh, fh, ft)
+                            break
+                    if found:
+                        break
+                if found:
+                    break
+            if found is None:
                 return None
+            start, fh, ft = found
+            start = max(start, pos)
             res.extend(src[pos:start])
             pos = start
-            prev = None
-            for (tag, text) in h["lines"]:
+            n_body = len(body)
+            for k, (tag, text) in enumerate(body):
+                ignored = (k < fh) or (k >= n_body - ft)
                 if tag == " ":
-                    if pos >= len(src) or src[pos] != text:
+                    if pos < len(src) and (src[pos] == text or ignored):
+                        res.append(src[pos])
+                        pos += 1
+                    elif ignored:
+                        continue
+                    else:
                         return None
-                    res.append(text)
-                    pos += 1
                 elif tag == "-":
                     if pos >= len(src) or src[pos] != text:
                         return None
                     pos += 1
                 elif tag == "+":
                     res.append(text)
-                elif tag == "\\":
-                    if prev == "+":
-                        no_nl_end = True
-                prev = tag if tag != "\\" else prev
         res.extend(src[pos:])
         text = "\n".join(res)
+        if f["old"] == "/dev/null" and not no_nl_end and res:
+            text += "\n"
         if f["new"] == "/dev/null":
             out[rel_old] = None
         else:
